@@ -84,6 +84,10 @@ class FakeSocket:
         r = self.ctl.ask('read', n)
         return r
 
+    def pending(self):
+        # ssl.SSLSocket.pending(): octets of an already decrypted record; the scripted reads hand out whole records
+        return 0
+
     def send(self, data):
         n = self.ctl.ask('write', bytes(data))
         if n > 0:
